@@ -18,6 +18,7 @@ open GoUtils GoUtils.Cache
 theorem C16_protocol_in_source :
     Generated.Cache.ok = true ∧ Generated.Cache.immUploadsUnderPartName = true ∧
     Generated.Cache.immRenamesAfterVerifiedTransfer = true ∧ Generated.Cache.immListingIgnoresPartAndHash = true ∧
+    Generated.Cache.immStoreReturnsRenameError = true ∧
     Generated.Cache.transferVerifiesHash = true ∧ Generated.Cache.mutStoreTransfersUnderLock = true ∧
     Generated.Cache.mutFetchUnpacksUnderLock = true := by decide
 
